@@ -19,31 +19,32 @@ structure PlainA (i : Instr) : Prop where
   altOnly : i.blockAlt.isSome = true → i.kind.isBlockStyle = true
   only : i.kind.isBlockStyle = false → i.semAfter = [] ∧ i.blockEntry = [] ∧ i.blockExit = []
 
-/-- one instruction: frames, removal state, `before` code, what stands in place of the token (`none`: the token itself), `after` code -/
+/-- one instruction: frames, removal state, the code that goes in front of the token (behind the instruction's own `before` list), what
+    stands in place of the token (`none`: the token itself), the code that goes behind it (behind the instruction's own `after` list) -/
 def specStepA (fr : List Fr) (del : Option Del) (i : Instr) :
     Option (List Fr × Option Del × List Tok × Option (List Tok) × List Tok) :=
   match i.kind with
   | .block | .loop | .if_ =>
     match del with
-    | some _ => some ({} :: fr, del, i.before, some [], i.after)
+    | some _ => some ({} :: fr, del, [], some [], [])
     | none =>
       match i.blockAlt with
-      | some alt => some ({} :: fr, some ⟨fr.length, false⟩, i.before, some alt, i.after)
+      | some alt => some ({} :: fr, some ⟨fr.length, false⟩, [], some alt, [])
       | none =>
         let f : Fr := if i.kind = .if_ then { ifExit := i.blockExit, afterA := i.semAfter } else { exitB := i.blockExit, afterA := i.semAfter }
-        some (f :: fr, none, i.before, none, i.after ++ i.blockEntry)
+        some (f :: fr, none, [], none, i.blockEntry)
   | .else_ =>
     match fr with
     | top :: below :: rest =>
       match del with
-      | some _ => some ({ top with ifExit := [] } :: below :: rest, del, i.before ++ top.ifExit, some [], i.after)
+      | some _ => some ({ top with ifExit := [] } :: below :: rest, del, top.ifExit, some [], [])
       | none =>
         match i.blockAlt with
         | some alt =>
-          some ({ top with ifExit := [] } :: below :: rest, some ⟨rest.length + 1, true⟩, i.before ++ top.ifExit, some alt, i.after)
+          some ({ top with ifExit := [] } :: below :: rest, some ⟨rest.length + 1, true⟩, top.ifExit, some alt, [])
         | none =>
-          some ({ exitB := top.exitB ++ i.blockExit, afterA := top.afterA ++ i.semAfter } :: below :: rest, none, i.before ++ top.ifExit,
-            none, i.after ++ i.blockEntry)
+          some ({ top with ifExit := [], exitB := top.exitB ++ i.blockExit, afterA := top.afterA ++ i.semAfter } :: below :: rest, none,
+            top.ifExit, none, i.blockEntry)
     | _ => none
   | .end_ =>
     match fr with
@@ -51,15 +52,15 @@ def specStepA (fr : List Fr) (del : Option Del) (i : Instr) :
       match del with
       | some ⟨d, retain⟩ =>
         if d = rest.length then
-          if retain then some (rest, none, i.before ++ top.ifExit ++ top.exitB, none, i.after ++ top.afterA)
-          else some (rest, none, i.before, some [], i.after)
-        else some (rest, del, i.before, some [], i.after)
-      | none => some (rest, none, i.before ++ top.ifExit ++ top.exitB, none, i.after ++ top.afterA)
+          if retain then some (rest, none, top.ifExit ++ top.exitB, none, endAfter top)
+          else some (rest, none, [], some [], [])
+        else some (rest, del, [], some [], [])
+      | none => some (rest, none, top.ifExit ++ top.exitB, none, endAfter top)
     | [] => none
   | _ =>
     match del with
-    | some _ => some (fr, del, i.before, some [], i.after)
-    | none => some (fr, none, i.before, none, i.after)
+    | some _ => some (fr, del, [], some [], [])
+    | none => some (fr, none, [], none, [])
 
 def specRunA (last : Nat) : Nat → List Fr → Option Del → List Instr → Option (List Tok)
   | _, fr, _, [] => if fr.isEmpty then some [] else none
@@ -72,25 +73,23 @@ def specRunA (last : Nat) : Nat → List Fr → Option Del → List Instr → Op
         match specRunA last (idx + 1) fr' del' is with
         | none => none
         | some rest =>
-          some (b ++ (if idx ≥ last then [i.tok] else alt.getD [i.tok]) ++ (if idx ≥ last then [] else a) ++ rest)
+          some (i.before ++ b ++ (if idx ≥ last then [i.tok] else alt.getD [i.tok]) ++ (if idx ≥ last then [] else i.after ++ a) ++ rest)
 
 /-- tables and stack agree with the frames (everything of `Tied` except "nothing is being removed") -/
 structure Tabs (s : RState) (fr : List Fr) : Prop where
-  entry : s.entry = []
-  exit : s.exit = []
   stack : s.stack = List.range fr.length
   f1 : ∀ k, (getInj s.onElseOrEnd k).flagged = []
   f2 : ∀ k, (getInj s.onEndBefore k).flagged = []
-  f3 : ∀ k, (getInj s.onEndAfter k).flagged = []
   t1 : ∀ k, flat (getInj s.onElseOrEnd k) = (frAt fr k).ifExit
   t2 : ∀ k, flat (getInj s.onEndBefore k) = (frAt fr k).exitB
   t3 : ∀ k, flat (getInj s.onEndAfter k) = (frAt fr k).afterA
+  t3f : ∀ k, (getInj s.onEndAfter k).flagged = (frAt fr k).afterFl
 
 theorem Tied.tabs {s : RState} {fr : List Fr} (h : Tied s fr) : Tabs s fr :=
-  ⟨h.entry, h.exit, h.stack, h.f1, h.f2, h.f3, h.t1, h.t2, h.t3⟩
+  ⟨h.stack, h.f1, h.f2, h.t1, h.t2, h.t3, h.t3f⟩
 
 theorem Tabs.tied {s : RState} {fr : List Fr} (h : Tabs s fr) (hd : s.deleteBlock = none) : Tied s fr :=
-  ⟨h.entry, h.exit, hd, h.stack, h.f1, h.f2, h.f3, h.t1, h.t2, h.t3⟩
+  ⟨hd, h.stack, h.f1, h.f2, h.t1, h.t2, h.t3, h.t3f⟩
 
 /-- the resolver's state agrees with frames and removal state -/
 structure TiedA (s : RState) (fr : List Fr) (del : Option Del) : Prop where
@@ -99,11 +98,21 @@ structure TiedA (s : RState) (fr : List Fr) (del : Option Del) : Prop where
   inv : ∀ dl : Del, del = some dl → s.retainEnd = dl.retain ∧ dl.d < fr.length ∧ (∀ k, dl.d < k → frAt fr k = {})
     ∧ (dl.retain = false → frAt fr dl.d = {})
 
+/-- the current instruction after the step: `before` and `after` extended, the alternate set -/
+def ChgA (c c' : Instr) (B : List Tok) (alt : Option (List Tok)) (A : List Tok) : Prop :=
+  c'.before = c.before ++ B ∧ c'.after = c.after ++ A ∧ c'.alt = alt ∧ c'.tok = c.tok
+
+theorem Chg.chgA {c c' : Instr} {B A : List Tok} (h : Chg c c' B A) (hc : c.alt = none) : ChgA c c' B none A :=
+  ⟨h.1, h.2.1, h.2.2.1.trans hc, h.2.2.2⟩
+
 /-- an emptied instruction: alternate `[]`, special lists gone, the rest kept -/
 theorem mark_chg (x : Instr) : (mark x).before = x.before ∧ (mark x).after = x.after ∧ (mark x).alt = some [] ∧ (mark x).tok = x.tok := by
   simp [mark]
 
-theorem Tabs.push_empty {s : RState} {fr : List Fr} (h : Tabs s fr) (s' : RState) (h1 : s'.entry = s.entry) (h2 : s'.exit = s.exit)
+theorem mark_chgA (x : Instr) : ChgA x (mark x) [] (some []) [] := by
+  simp [ChgA, mark]
+
+theorem Tabs.push_empty {s : RState} {fr : List Fr} (h : Tabs s fr) (s' : RState)
     (h3 : s'.stack = s.stack ++ [s.stack.length]) (h4 : s'.onElseOrEnd = s.onElseOrEnd) (h5 : s'.onEndBefore = s.onEndBefore)
     (h6 : s'.onEndAfter = s.onEndAfter) : Tabs s' ({} :: fr) := by
   have hk : ∀ k, frAt (({} : Fr) :: fr) k = frAt fr k := by
@@ -111,43 +120,43 @@ theorem Tabs.push_empty {s : RState} {fr : List Fr} (h : Tabs s fr) (s' : RState
     by_cases hk' : k = fr.length
     · subst hk'; rw [frAt_ge fr _ (Nat.le_refl _)]; simp
     · simp [hk']
-  refine ⟨h1.trans h.entry, h2.trans h.exit, ?_, ?_, ?_, ?_, ?_, ?_, ?_⟩
+  refine ⟨?_, ?_, ?_, ?_, ?_, ?_, ?_⟩
   · rw [h3, h.stack]; simpa using range_push fr.length
   · rw [h4]; exact h.f1
   · rw [h5]; exact h.f2
-  · rw [h6]; exact h.f3
   · intro k; rw [h4, hk]; exact h.t1 k
   · intro k; rw [h5, hk]; exact h.t2 k
   · intro k; rw [h6, hk]; exact h.t3 k
+  · intro k; rw [h6, hk]; exact h.t3f k
 
 /-- an instruction inside a removed region that neither opens nor closes: emptied -/
-theorem rstepA_removed_other (last : Nat) (s : RState) (fr : List Fr) (dl : Del) (done rest : List Instr) (ins : Instr)
-    (ht : TiedA s fr (some dl)) (hb : s.body = done ++ ins :: rest)
+theorem rcoreA_removed_other (s : RState) (fr : List Fr) (dl : Del) (done rest : List Instr) (c ins : Instr)
+    (ht : TiedA s fr (some dl)) (hb : s.body = done ++ c :: rest)
     (hk : ins.kind ≠ .block ∧ ins.kind ≠ .loop ∧ ins.kind ≠ .if_ ∧ ins.kind ≠ .else_ ∧ ins.kind ≠ .end_) :
-    let s' := rstep last s done.length ins
-    TiedA s' fr (some dl) ∧ s'.nlocals = s.nlocals ∧ s'.added = s.added ∧ s'.body = done ++ mark ins :: rest := by
+    let s' := rcore s done.length ins
+    TiedA s' fr (some dl) ∧ Keep s s' ∧ s'.body = done ++ mark c :: rest := by
   have hd : s.deleteBlock = some dl.d := ht.hdel
-  have hred : rstep last s done.length ins = { s with body := discardSpecial (setEmptyAlt s.body done.length) done.length } := by
-    cases hkk : ins.kind <;> simp_all [rstep, ht.tabs.entry, ht.tabs.exit]
+  have hred : rcore s done.length ins = { s with body := discardSpecial (setEmptyAlt s.body done.length) done.length } := by
+    cases hkk : ins.kind <;> simp_all [rcore]
   rw [hred]
-  refine ⟨⟨⟨ht.tabs.entry, ht.tabs.exit, ht.tabs.stack, ht.tabs.f1, ht.tabs.f2, ht.tabs.f3, ht.tabs.t1, ht.tabs.t2, ht.tabs.t3⟩, ht.hdel, ht.inv⟩,
-    rfl, rfl, ?_⟩
+  refine ⟨⟨⟨ht.tabs.stack, ht.tabs.f1, ht.tabs.f2, ht.tabs.t1, ht.tabs.t2, ht.tabs.t3, ht.tabs.t3f⟩, ht.hdel, ht.inv⟩,
+    ⟨rfl, rfl, rfl, rfl⟩, ?_⟩
   show discardSpecial (setEmptyAlt s.body done.length) done.length = _
   rw [hb, mark_at]
 
 /-- an opener inside a removed region: emptied, an empty frame is pushed -/
-theorem rstepA_removed_open (last : Nat) (s : RState) (fr : List Fr) (dl : Del) (done rest : List Instr) (ins : Instr)
-    (ht : TiedA s fr (some dl)) (hb : s.body = done ++ ins :: rest) (hk : ins.kind = .block ∨ ins.kind = .loop ∨ ins.kind = .if_) :
-    let s' := rstep last s done.length ins
-    TiedA s' ({} :: fr) (some dl) ∧ s'.nlocals = s.nlocals ∧ s'.added = s.added ∧ s'.body = done ++ mark ins :: rest := by
+theorem rcoreA_removed_open (s : RState) (fr : List Fr) (dl : Del) (done rest : List Instr) (c ins : Instr)
+    (ht : TiedA s fr (some dl)) (hb : s.body = done ++ c :: rest) (hk : ins.kind = .block ∨ ins.kind = .loop ∨ ins.kind = .if_) :
+    let s' := rcore s done.length ins
+    TiedA s' ({} :: fr) (some dl) ∧ Keep s s' ∧ s'.body = done ++ mark c :: rest := by
   have hd : s.deleteBlock = some dl.d := ht.hdel
-  have hred : rstep last s done.length ins
+  have hred : rcore s done.length ins
       = { s with stack := s.stack ++ [s.stack.length], body := discardSpecial (setEmptyAlt s.body done.length) done.length } := by
     rcases hk with h | h | h <;> cases hba : ins.blockAlt <;>
-      simp [rstep, ht.tabs.entry, ht.tabs.exit, h, hba, hd]
+      simp [rcore, h, hba, hd]
   rw [hred]
   obtain ⟨i1, i2, i3, i4⟩ := ht.inv dl rfl
-  refine ⟨⟨ht.tabs.push_empty _ rfl rfl rfl rfl rfl rfl, ht.hdel, ?_⟩, rfl, rfl, ?_⟩
+  refine ⟨⟨ht.tabs.push_empty _ rfl rfl rfl rfl, ht.hdel, ?_⟩, ⟨rfl, rfl, rfl, rfl⟩, ?_⟩
   · intro dl' hdl'
     cases hdl'
     refine ⟨i1, by simp only [List.length_cons]; omega, ?_, ?_⟩
@@ -166,9 +175,9 @@ theorem rstepA_removed_open (last : Nat) (s : RState) (fr : List Fr) (dl : Del) 
 /-- the tables after the pending if-exit entry of the top frame has been flushed -/
 theorem Tabs.flushed_top {s s' : RState} {top : Fr} {rfr : List Fr} (h : Tabs s (top :: rfr))
     (q0 : getInj s'.onElseOrEnd rfr.length = {}) (q1 : ∀ j, j ≠ rfr.length → getInj s'.onElseOrEnd j = getInj s.onElseOrEnd j)
-    (h1 : s'.entry = s.entry) (h2 : s'.exit = s.exit) (h3 : s'.stack = s.stack) (h5 : s'.onEndBefore = s.onEndBefore)
+    (h3 : s'.stack = s.stack) (h5 : s'.onEndBefore = s.onEndBefore)
     (h6 : s'.onEndAfter = s.onEndAfter) : Tabs s' ({ top with ifExit := [] } :: rfr) := by
-  refine ⟨h1.trans h.entry, h2.trans h.exit, by rw [h3, h.stack]; simp, ?_, by rw [h5]; exact h.f2, by rw [h6]; exact h.f3, ?_, ?_, ?_⟩
+  refine ⟨by rw [h3, h.stack]; simp, ?_, by rw [h5]; exact h.f2, ?_, ?_, ?_, ?_⟩
   · intro k
     by_cases hk : k = rfr.length
     · subst hk; rw [q0]
@@ -180,28 +189,29 @@ theorem Tabs.flushed_top {s s' : RState} {top : Fr} {rfr : List Fr} (h : Tabs s 
     · rw [q1 k hk, h.t1, frAt_push]; simp [hk]
   · intro k; rw [h5, h.t2, frAt_push, frAt_push]; by_cases hk : k = rfr.length <;> simp [hk]
   · intro k; rw [h6, h.t3, frAt_push, frAt_push]; by_cases hk : k = rfr.length <;> simp [hk]
+  · intro k; rw [h6, h.t3f, frAt_push, frAt_push]; by_cases hk : k = rfr.length <;> simp [hk]
 
 /-- an `else` inside a removed region: what its `if` left pending goes in front (nothing, inside a region), then it is emptied -/
-theorem rstepA_removed_else (last : Nat) (s : RState) (top : Fr) (rfr : List Fr) (dl : Del) (done rest : List Instr) (ins : Instr)
-    (ht : TiedA s (top :: rfr) (some dl)) (hb : s.body = done ++ ins :: rest) (hk : ins.kind = .else_) :
-    let s' := rstep last s done.length ins
-    TiedA s' ({ top with ifExit := [] } :: rfr) (some dl) ∧ s'.nlocals = s.nlocals ∧ s'.added = s.added
-      ∧ ∃ c', s'.body = done ++ c' :: rest ∧ c'.before = ins.before ++ top.ifExit ∧ c'.after = ins.after ∧ c'.alt = some [] ∧ c'.tok = ins.tok := by
+theorem rcoreA_removed_else (s : RState) (top : Fr) (rfr : List Fr) (dl : Del) (done rest : List Instr) (c ins : Instr)
+    (ht : TiedA s (top :: rfr) (some dl)) (hb : s.body = done ++ c :: rest) (hk : ins.kind = .else_) :
+    let s' := rcore s done.length ins
+    TiedA s' ({ top with ifExit := [] } :: rfr) (some dl) ∧ Keep s s'
+      ∧ ∃ c', s'.body = done ++ c' :: rest ∧ ChgA c c' top.ifExit (some []) [] := by
   have hd : s.deleteBlock = some dl.d := ht.hdel
   have htop : Lower.top s.stack = rfr.length := by rw [ht.tabs.stack]; simp only [List.length_cons]; exact top_range_succ _
-  have hred : rstep last s done.length ins
+  have hred : rcore s done.length ins
       = { flushE s done.length rfr.length with
           body := discardSpecial (setEmptyAlt (flushE s done.length rfr.length).body done.length) done.length } := by
     cases ha : s.onElseOrEnd.any (fun x => x.fst == rfr.length) <;> cases hba : ins.blockAlt <;>
-      simp [rstep, flushE, ha, hba, ht.tabs.entry, ht.tabs.exit, hk, hd, htop]
+      simp [rcore, flushE, ha, hba, hk, hd, htop]
   rw [hred]
-  obtain ⟨⟨c1, hb1, hc1⟩, q0, q1, q2, q3, q4, q5, q6, q7, q8, q9, q10⟩ := flushE_spec s done rest ins rfr.length hb ht.tabs.f1
+  obtain ⟨⟨c1, hb1, hc1⟩, q0, q1, q2, q3, q4, q5, q6, q7, q8, q9, q10⟩ := flushE_spec s done rest c rfr.length hb ht.tabs.f1
   obtain ⟨i1, i2, i3, i4⟩ := ht.inv dl rfl
   have e1 : flat (getInj s.onElseOrEnd rfr.length) = top.ifExit := by rw [ht.tabs.t1, frAt_top]
   have hfr : ∀ k, frAt ({ top with ifExit := [] } :: rfr) k = if k = rfr.length then { top with ifExit := [] } else frAt (top :: rfr) k := by
     intro k; rw [frAt_push, frAt_push]; by_cases hk' : k = rfr.length <;> simp [hk']
-  refine ⟨⟨ht.tabs.flushed_top q0 q1 q4 q5 q2 q8 q9, by show (flushE s done.length rfr.length).deleteBlock = _; rw [q3]; exact ht.hdel, ?_⟩,
-    q6, q7, mark c1, ?_, ?_, ?_, ?_, ?_⟩
+  refine ⟨⟨ht.tabs.flushed_top q0 q1 q2 q8 q9, by show (flushE s done.length rfr.length).deleteBlock = _; rw [q3]; exact ht.hdel, ?_⟩,
+    ⟨q6, q7, q4, q5⟩, mark c1, ?_, ?_, ?_, ?_, ?_⟩
   · intro dl' hdl'
     cases hdl'
     refine ⟨by show (flushE s done.length rfr.length).retainEnd = _; rw [q10]; exact i1, by simpa using i2, ?_, ?_⟩
@@ -218,31 +228,31 @@ theorem rstepA_removed_else (last : Nat) (s : RState) (top : Fr) (rfr : List Fr)
   · show discardSpecial (setEmptyAlt (flushE s done.length rfr.length).body done.length) done.length = _
     rw [hb1, mark_at]
   · rw [(mark_chg c1).1, hc1.1, e1]
-  · rw [(mark_chg c1).2.1, hc1.2.1]; simp
+  · rw [(mark_chg c1).2.1, hc1.2.1]
   · exact (mark_chg c1).2.2.1
   · rw [(mark_chg c1).2.2.2, hc1.2.2.2]
 
 /-- tables after popping a frame that holds nothing -/
 theorem Tabs.pop_empty {s s' : RState} {top : Fr} {rfr : List Fr} (h : Tabs s (top :: rfr)) (he : top = {})
-    (h1 : s'.entry = s.entry) (h2 : s'.exit = s.exit) (h3 : s'.stack = List.range rfr.length) (h4 : s'.onElseOrEnd = s.onElseOrEnd)
+    (h3 : s'.stack = List.range rfr.length) (h4 : s'.onElseOrEnd = s.onElseOrEnd)
     (h5 : s'.onEndBefore = s.onEndBefore) (h6 : s'.onEndAfter = s.onEndAfter) : Tabs s' rfr := by
   have hk : ∀ k, frAt (top :: rfr) k = frAt rfr k := by
     intro k; rw [frAt_push]
     by_cases hk' : k = rfr.length
     · subst hk'; rw [frAt_ge rfr _ (Nat.le_refl _), he]; simp
     · simp [hk']
-  refine ⟨h1.trans h.entry, h2.trans h.exit, h3, by rw [h4]; exact h.f1, by rw [h5]; exact h.f2, by rw [h6]; exact h.f3, ?_, ?_, ?_⟩
+  refine ⟨h3, by rw [h4]; exact h.f1, by rw [h5]; exact h.f2, ?_, ?_, ?_, ?_⟩
   · intro k; rw [h4, h.t1, hk]
   · intro k; rw [h5, h.t2, hk]
   · intro k; rw [h6, h.t3, hk]
+  · intro k; rw [h6, h.t3f, hk]
 
 /-- an `end` inside a removed region, or the `end` of the removed construct itself: emptied -/
-theorem rstepA_removed_end (last : Nat) (s : RState) (top : Fr) (rfr : List Fr) (dl : Del) (done rest : List Instr) (ins : Instr)
-    (ht : TiedA s (top :: rfr) (some dl)) (hb : s.body = done ++ ins :: rest) (hk : ins.kind = .end_)
+theorem rcoreA_removed_end (s : RState) (top : Fr) (rfr : List Fr) (dl : Del) (done rest : List Instr) (c ins : Instr)
+    (ht : TiedA s (top :: rfr) (some dl)) (hb : s.body = done ++ c :: rest) (hk : ins.kind = .end_)
     (hcase : dl.d ≠ rfr.length ∨ dl.retain = false) :
-    let s' := rstep last s done.length ins
-    TiedA s' rfr (if dl.d = rfr.length then none else some dl) ∧ s'.nlocals = s.nlocals ∧ s'.added = s.added
-      ∧ s'.body = done ++ mark ins :: rest := by
+    let s' := rcore s done.length ins
+    TiedA s' rfr (if dl.d = rfr.length then none else some dl) ∧ Keep s s' ∧ s'.body = done ++ mark c :: rest := by
   have hd : s.deleteBlock = some dl.d := ht.hdel
   obtain ⟨i1, i2, i3, i4⟩ := ht.inv dl rfl
   have hst : s.stack = List.range (rfr.length + 1) := by rw [ht.tabs.stack]; rfl
@@ -250,28 +260,28 @@ theorem rstepA_removed_end (last : Nat) (s : RState) (top : Fr) (rfr : List Fr) 
   · -- the `end` of the removed construct (not retained)
     have hr : dl.retain = false := by rcases hcase with h | h; exact absurd hdd h; exact h
     have hre : s.retainEnd = false := by rw [i1, hr]
-    have hred : rstep last s done.length ins
+    have hred : rcore s done.length ins
         = { s with stack := List.range rfr.length, deleteBlock := none, retainEnd := true,
                    body := discardSpecial (setEmptyAlt s.body done.length) done.length } := by
-      simp [rstep, ht.tabs.entry, ht.tabs.exit, hk, hst, range_succ_getLast, range_succ_dropLast, hd, hdd, hre]
+      simp [rcore, hk, hst, range_succ_getLast, range_succ_dropLast, hd, hdd, hre]
     rw [hred]
     have htop : top = {} := by have := i4 hr; rw [hdd, frAt_top] at this; exact this
     rw [if_pos hdd]
-    refine ⟨⟨ht.tabs.pop_empty htop rfl rfl rfl rfl rfl rfl, rfl, fun dl' h => by cases h⟩, rfl, rfl, ?_⟩
+    refine ⟨⟨ht.tabs.pop_empty htop rfl rfl rfl rfl, rfl, fun dl' h => by cases h⟩, ⟨rfl, rfl, rfl, rfl⟩, ?_⟩
     show discardSpecial (setEmptyAlt s.body done.length) done.length = _
     rw [hb, mark_at]
   · -- an `end` of a construct inside the region
     have hne : (dl.d == rfr.length) = false := by simpa using hdd
-    have hred : rstep last s done.length ins
+    have hred : rcore s done.length ins
         = { s with stack := List.range rfr.length, body := discardSpecial (setEmptyAlt s.body done.length) done.length } := by
-      simp [rstep, ht.tabs.entry, ht.tabs.exit, hk, hst, range_succ_getLast, range_succ_dropLast, hd, hne]
+      simp [rcore, hk, hst, range_succ_getLast, range_succ_dropLast, hd, hne]
     rw [hred]
     have hlt : dl.d < rfr.length := by simp only [List.length_cons] at i2; omega
     have htop : top = {} := by have := i3 rfr.length hlt; rw [frAt_top] at this; exact this
     rw [if_neg hdd]
     have hk' : ∀ k, k ≠ rfr.length → frAt (top :: rfr) k = frAt rfr k := by
       intro k hk'; rw [frAt_push]; simp [hk']
-    refine ⟨⟨ht.tabs.pop_empty htop rfl rfl rfl rfl rfl rfl, ht.hdel, ?_⟩, rfl, rfl, ?_⟩
+    refine ⟨⟨ht.tabs.pop_empty htop rfl rfl rfl rfl, ht.hdel, ?_⟩, ⟨rfl, rfl, rfl, rfl⟩, ?_⟩
     · intro dl' hdl'
       cases hdl'
       refine ⟨i1, hlt, ?_, ?_⟩
@@ -284,32 +294,31 @@ theorem rstepA_removed_end (last : Nat) (s : RState) (top : Fr) (rfr : List Fr) 
       rw [hb, mark_at]
 
 /-- the `end` of an `if` whose `else` arm was removed: it stays and closes the frame as usual -/
-theorem rstepA_retained_end (last : Nat) (s : RState) (top : Fr) (rfr : List Fr) (dl : Del) (done rest : List Instr) (ins : Instr)
-    (hp : PlainA ins) (ht : TiedA s (top :: rfr) (some dl)) (hb : s.body = done ++ ins :: rest) (hk : ins.kind = .end_)
+theorem rcoreA_retained_end (s : RState) (top : Fr) (rfr : List Fr) (dl : Del) (done rest : List Instr) (c ins : Instr)
+    (hp : PlainA ins) (ht : TiedA s (top :: rfr) (some dl)) (hb : s.body = done ++ c :: rest) (hk : ins.kind = .end_)
     (hdd : dl.d = rfr.length) (hr : dl.retain = true) :
-    let s' := rstep last s done.length ins
-    TiedA s' rfr none ∧ s'.nlocals = s.nlocals ∧ s'.added = s.added
-      ∧ ∃ c', s'.body = done ++ c' :: rest ∧ Chg ins c' (top.ifExit ++ top.exitB) top.afterA := by
+    let s' := rcore s done.length ins
+    TiedA s' rfr none ∧ Keep s s' ∧ ∃ c', s'.body = done ++ c' :: rest ∧ Chg c c' (top.ifExit ++ top.exitB) (endAfter top) := by
   have hd : s.deleteBlock = some dl.d := ht.hdel
   obtain ⟨i1, _, _, _⟩ := ht.inv dl rfl
   have hre : s.retainEnd = true := by rw [i1, hr]
   have hst : s.stack = List.range (rfr.length + 1) := by rw [ht.tabs.stack]; rfl
   have hnb : ins.kind.isBlockStyle = false := by simp [hk, Kind.isBlockStyle]
   obtain ⟨z1, z2, z3⟩ := hp.only hnb
-  have hred : rstep last s done.length ins
+  have hred : rcore s done.length ins
       = endE { s with stack := List.range rfr.length, deleteBlock := none, retainEnd := true } done.length rfr.length := by
     cases ha : s.onElseOrEnd.any (fun x => x.fst == rfr.length) <;> cases hB : s.onEndBefore.any (fun x => x.fst == rfr.length) <;>
       cases hA : s.onEndAfter.any (fun x => x.fst == rfr.length) <;>
-      simp [rstep, endE, flushE, ha, hB, hA, ht.tabs.entry, ht.tabs.exit, hk, hd, hdd, hre, hst, range_succ_getLast, range_succ_dropLast,
+      simp [rcore, endE, flushE, ha, hB, hA, hk, hd, hdd, hre, hst, range_succ_getLast, range_succ_dropLast,
         planSpecial_nospecial _ _ _ z1 z2 z3]
   rw [hred]
   obtain ⟨⟨c', hb', hc'⟩, e1, e2, e3, e4, e5, e6, e7, e8, e9, e10⟩ :=
-    endE_spec { s with stack := List.range rfr.length, deleteBlock := none, retainEnd := true } done rest ins rfr.length hb
-      ht.tabs.f1 ht.tabs.f2 ht.tabs.f3
+    endE_spec { s with stack := List.range rfr.length, deleteBlock := none, retainEnd := true } done rest c rfr.length hb
+      ht.tabs.f1 ht.tabs.f2
   have hpop : ∀ k, k ≠ rfr.length → frAt (top :: rfr) k = frAt rfr k := by
     intro k hk'; rw [frAt_push]; simp [hk']
   have hge : frAt rfr rfr.length = {} := frAt_ge rfr _ (Nat.le_refl _)
-  refine ⟨⟨⟨e7.trans ht.tabs.entry, e8.trans ht.tabs.exit, e5, ?_, ?_, ?_, ?_, ?_, ?_⟩, e6, fun dl' h => by cases h⟩, e9, e10, c', hb', ?_⟩
+  refine ⟨⟨⟨e5, ?_, ?_, ?_, ?_, ?_, ?_⟩, e6, fun dl' h => by cases h⟩, ⟨e9, e10, e7, e8⟩, c', hb', ?_⟩
   · intro k
     by_cases hk' : k = rfr.length
     · subst hk'; rw [e1]
@@ -318,10 +327,6 @@ theorem rstepA_retained_end (last : Nat) (s : RState) (top : Fr) (rfr : List Fr)
     by_cases hk' : k = rfr.length
     · subst hk'; rw [e2]
     · rw [(e4 k hk').2.1]; exact ht.tabs.f2 k
-  · intro k
-    by_cases hk' : k = rfr.length
-    · subst hk'; rw [e3]
-    · rw [(e4 k hk').2.2]; exact ht.tabs.f3 k
   · intro k
     by_cases hk' : k = rfr.length
     · subst hk'; rw [e1, hge]; rfl
@@ -334,9 +339,14 @@ theorem rstepA_retained_end (last : Nat) (s : RState) (top : Fr) (rfr : List Fr)
     by_cases hk' : k = rfr.length
     · subst hk'; rw [e3, hge]; rfl
     · rw [(e4 k hk').2.2]; show flat (getInj s.onEndAfter k) = _; rw [ht.tabs.t3, hpop k hk']
+  · intro k
+    by_cases hk' : k = rfr.length
+    · subst hk'; rw [e3, hge]
+    · rw [(e4 k hk').2.2]; show (getInj s.onEndAfter k).flagged = _; rw [ht.tabs.t3f, hpop k hk']
   · have a1 : flat (getInj s.onElseOrEnd rfr.length) = top.ifExit := by rw [ht.tabs.t1, frAt_top]
     have a2 : flat (getInj s.onEndBefore rfr.length) = top.exitB := by rw [ht.tabs.t2, frAt_top]
-    have a3 : flat (getInj s.onEndAfter rfr.length) = top.afterA := by rw [ht.tabs.t3, frAt_top]
+    have a3 : resolveBodies (getInj s.onEndAfter rfr.length) = endAfter top := by
+      rw [resolveBodies_eq, ht.tabs.t3, ht.tabs.t3f, frAt_top]; rfl
     have := hc'
     simp only [a1, a2, a3] at this
     exact this
@@ -355,23 +365,22 @@ theorem planBlockAlt_mid (A B : List Instr) (x : Instr) (alt : List Tok) (hx : x
     exact ⟨_, rfl, rfl, rfl, rfl, rfl⟩
 
 /-- **a block alternate on `block` / `loop` / `if`**: the replacement takes the opener's place; removal starts -/
-theorem rstepA_start_open (last : Nat) (s : RState) (fr : List Fr) (done rest : List Instr) (ins : Instr) (alt : List Tok)
-    (hp : PlainA ins) (ht : TiedA s fr none) (hb : s.body = done ++ ins :: rest) (hk : ins.kind = .block ∨ ins.kind = .loop ∨ ins.kind = .if_)
+theorem rcoreA_start_open (s : RState) (fr : List Fr) (done rest : List Instr) (c ins : Instr) (alt : List Tok)
+    (hca : c.alt = none) (ht : TiedA s fr none) (hb : s.body = done ++ c :: rest) (hk : ins.kind = .block ∨ ins.kind = .loop ∨ ins.kind = .if_)
     (ha : ins.blockAlt = some alt) :
-    let s' := rstep last s done.length ins
-    TiedA s' ({} :: fr) (some ⟨fr.length, false⟩) ∧ s'.nlocals = s.nlocals ∧ s'.added = s.added
-      ∧ ∃ c', s'.body = done ++ c' :: rest ∧ c'.before = ins.before ∧ c'.after = ins.after ∧ c'.alt = some alt ∧ c'.tok = ins.tok := by
+    let s' := rcore s done.length ins
+    TiedA s' ({} :: fr) (some ⟨fr.length, false⟩) ∧ Keep s s' ∧ ∃ c', s'.body = done ++ c' :: rest ∧ ChgA c c' [] (some alt) [] := by
   have hd : s.deleteBlock = none := ht.hdel
   have hst : (s.stack ++ [s.stack.length]) = List.range (fr.length + 1) := by rw [ht.tabs.stack]; exact range_push _
   have htop : top (s.stack ++ [s.stack.length]) = fr.length := by rw [hst, top_range_succ]
-  have hred : rstep last s done.length ins
+  have hred : rcore s done.length ins
       = { s with stack := s.stack ++ [s.stack.length], body := planBlockAlt s.body done.length alt, retainEnd := false,
                  deleteBlock := some fr.length } := by
-    rcases hk with h | h | h <;> simp [rstep, ht.tabs.entry, ht.tabs.exit, h, ha, hd, htop]
+    rcases hk with h | h | h <;> simp [rcore, h, ha, hd, htop]
   rw [hred]
-  obtain ⟨y, hy, y1, y2, y3, y4⟩ := planBlockAlt_mid done rest ins alt hp.alt
-  refine ⟨⟨ht.tabs.push_empty _ rfl rfl rfl rfl rfl rfl, rfl, ?_⟩, rfl, rfl, y, by show planBlockAlt s.body done.length alt = _; rw [hb, hy],
-    y1, y2, y3, y4⟩
+  obtain ⟨y, hy, y1, y2, y3, y4⟩ := planBlockAlt_mid done rest c alt hca
+  refine ⟨⟨ht.tabs.push_empty _ rfl rfl rfl rfl, rfl, ?_⟩, ⟨rfl, rfl, rfl, rfl⟩, y, by show planBlockAlt s.body done.length alt = _; rw [hb, hy],
+    by simp [y1], by simp [y2], y3, y4⟩
   intro dl' hdl'
   cases hdl'
   refine ⟨rfl, by simp, ?_, ?_⟩
@@ -383,26 +392,25 @@ theorem rstepA_start_open (last : Nat) (s : RState) (fr : List Fr) (done rest : 
 
 /-- **a block alternate on `else`**: what the `if` left pending goes in front, the replacement takes the `else`'s place, the arm is
     removed, the `end` stays -/
-theorem rstepA_start_else (last : Nat) (s : RState) (top : Fr) (rfr : List Fr) (done rest : List Instr) (ins : Instr) (alt : List Tok)
-    (hp : PlainA ins) (ht : TiedA s (top :: rfr) none) (hb : s.body = done ++ ins :: rest) (hk : ins.kind = .else_)
+theorem rcoreA_start_else (s : RState) (top : Fr) (rfr : List Fr) (done rest : List Instr) (c ins : Instr) (alt : List Tok)
+    (hca : c.alt = none) (ht : TiedA s (top :: rfr) none) (hb : s.body = done ++ c :: rest) (hk : ins.kind = .else_)
     (ha : ins.blockAlt = some alt) :
-    let s' := rstep last s done.length ins
-    TiedA s' ({ top with ifExit := [] } :: rfr) (some ⟨rfr.length, true⟩) ∧ s'.nlocals = s.nlocals ∧ s'.added = s.added
-      ∧ ∃ c', s'.body = done ++ c' :: rest ∧ c'.before = ins.before ++ top.ifExit ∧ c'.after = ins.after ∧ c'.alt = some alt
-          ∧ c'.tok = ins.tok := by
+    let s' := rcore s done.length ins
+    TiedA s' ({ top with ifExit := [] } :: rfr) (some ⟨rfr.length, true⟩) ∧ Keep s s'
+      ∧ ∃ c', s'.body = done ++ c' :: rest ∧ ChgA c c' top.ifExit (some alt) [] := by
   have hd : s.deleteBlock = none := ht.hdel
   have htop : Lower.top s.stack = rfr.length := by rw [ht.tabs.stack]; simp only [List.length_cons]; exact top_range_succ _
-  have hred : rstep last s done.length ins
+  have hred : rcore s done.length ins
       = { flushE s done.length rfr.length with
           body := planBlockAlt (flushE s done.length rfr.length).body done.length alt, retainEnd := true, deleteBlock := some rfr.length } := by
     cases hany : s.onElseOrEnd.any (fun x => x.fst == rfr.length) <;>
-      simp [rstep, flushE, hany, ha, ht.tabs.entry, ht.tabs.exit, hk, hd, htop]
+      simp [rcore, flushE, hany, ha, hk, hd, htop]
   rw [hred]
-  obtain ⟨⟨c1, hb1, hc1⟩, q0, q1, q2, q3, q4, q5, q6, q7, q8, q9, _⟩ := flushE_spec s done rest ins rfr.length hb ht.tabs.f1
+  obtain ⟨⟨c1, hb1, hc1⟩, q0, q1, q2, q3, q4, q5, q6, q7, q8, q9, _⟩ := flushE_spec s done rest c rfr.length hb ht.tabs.f1
   have e1 : flat (getInj s.onElseOrEnd rfr.length) = top.ifExit := by rw [ht.tabs.t1, frAt_top]
-  have hc1alt : c1.alt = none := hc1.2.2.1.trans hp.alt
+  have hc1alt : c1.alt = none := hc1.2.2.1.trans hca
   obtain ⟨y, hy, y1, y2, y3, y4⟩ := planBlockAlt_mid done rest c1 alt hc1alt
-  refine ⟨⟨ht.tabs.flushed_top q0 q1 q4 q5 q2 q8 q9, rfl, ?_⟩, q6, q7, y,
+  refine ⟨⟨ht.tabs.flushed_top q0 q1 q2 q8 q9, rfl, ?_⟩, ⟨q6, q7, q4, q5⟩, y,
     by show planBlockAlt (flushE s done.length rfr.length).body done.length alt = _; rw [hb1, hy], ?_, ?_, y3, ?_⟩
   · intro dl' hdl'
     cases hdl'
@@ -412,7 +420,7 @@ theorem rstepA_start_else (last : Nat) (s : RState) (top : Fr) (rfr : List Fr) (
       exact frAt_ge _ _ (by simp only [List.length_cons]; omega)
     · intro h; cases h
   · rw [y1, hc1.1, e1]
-  · rw [y2, hc1.2.1]; simp
+  · rw [y2, hc1.2.1]
   · rw [y4, hc1.2.2.2]
 
 theorem PlainA.plain {i : Instr} (h : PlainA i) (hb : i.blockAlt = none) : Plain i := ⟨h.alt, hb, h.only⟩
@@ -423,12 +431,12 @@ theorem Tied.tiedA {s : RState} {fr : List Fr} (h : Tied s fr) : TiedA s fr none
 theorem TiedA.tied {s : RState} {fr : List Fr} (h : TiedA s fr none) : Tied s fr := h.tabs.tied h.hdel
 
 /-- **one step of the resolver is one step of the extended stack machine** -/
-theorem rstepA_tied (last : Nat) (s : RState) (fr : List Fr) (del : Option Del) (done rest : List Instr) (ins : Instr) (hp : PlainA ins)
-    (ht : TiedA s fr del) (hb : s.body = done ++ ins :: rest) (fr' : List Fr) (del' : Option Del) (B : List Tok) (alt : Option (List Tok))
+theorem rcoreA_tied (s : RState) (fr : List Fr) (del : Option Del) (done rest : List Instr) (c ins : Instr) (hp : PlainA ins)
+    (hca : c.alt = none)
+    (ht : TiedA s fr del) (hb : s.body = done ++ c :: rest) (fr' : List Fr) (del' : Option Del) (B : List Tok) (alt : Option (List Tok))
     (A : List Tok) (hs : specStepA fr del ins = some (fr', del', B, alt, A)) :
-    let s' := rstep last s done.length ins
-    TiedA s' fr' del' ∧ s'.nlocals = s.nlocals ∧ s'.added = s.added
-      ∧ ∃ c', s'.body = done ++ c' :: rest ∧ c'.before = B ∧ c'.after = A ∧ c'.alt = alt ∧ c'.tok = ins.tok := by
+    let s' := rcore s done.length ins
+    TiedA s' fr' del' ∧ Keep s s' ∧ ∃ c', s'.body = done ++ c' :: rest ∧ ChgA c c' B alt A := by
   cases del with
   | some dl =>
     -- inside a removed region
@@ -437,8 +445,8 @@ theorem rstepA_tied (last : Nat) (s : RState) (fr : List Fr) (del : Option Del) 
       all_goals
         simp only [specStepA, hk, Option.some.injEq, Prod.mk.injEq] at hs
         obtain ⟨rfl, rfl, rfl, rfl, rfl⟩ := hs
-        obtain ⟨t, n1, n2, hb'⟩ := rstepA_removed_open last s fr dl done rest ins ht hb (by simp [hk])
-        exact ⟨t, n1, n2, mark ins, hb', (mark_chg ins).1, (mark_chg ins).2.1, (mark_chg ins).2.2.1, (mark_chg ins).2.2.2⟩
+        obtain ⟨t, n1, hb'⟩ := rcoreA_removed_open s fr dl done rest c ins ht hb (by simp [hk])
+        exact ⟨t, n1, mark c, hb', mark_chgA c⟩
     | else_ =>
       cases fr with
       | nil => simp [specStepA, hk] at hs
@@ -448,7 +456,7 @@ theorem rstepA_tied (last : Nat) (s : RState) (fr : List Fr) (del : Option Del) 
         | cons below rfr =>
           simp only [specStepA, hk, Option.some.injEq, Prod.mk.injEq] at hs
           obtain ⟨rfl, rfl, rfl, rfl, rfl⟩ := hs
-          exact rstepA_removed_else last s top (below :: rfr) dl done rest ins ht hb hk
+          exact rcoreA_removed_else s top (below :: rfr) dl done rest c ins ht hb hk
     | end_ =>
       cases fr with
       | nil => simp [specStepA, hk] at hs
@@ -460,49 +468,48 @@ theorem rstepA_tied (last : Nat) (s : RState) (fr : List Fr) (del : Option Del) 
           | true =>
             simp only [hdd, hr, if_true, Option.some.injEq, Prod.mk.injEq] at hs
             obtain ⟨rfl, rfl, rfl, rfl, rfl⟩ := hs
-            obtain ⟨t, n1, n2, c', hb', hc'⟩ := rstepA_retained_end last s top rfr ⟨d, retain⟩ done rest ins hp ht hb hk hdd hr
-            exact ⟨t, n1, n2, c', hb', by rw [hc'.1, List.append_assoc], hc'.2.1, hc'.2.2.1.trans hp.alt, hc'.2.2.2⟩
+            obtain ⟨t, n1, c', hb', hc'⟩ := rcoreA_retained_end s top rfr ⟨d, retain⟩ done rest c ins hp ht hb hk hdd hr
+            exact ⟨t, n1, c', hb', hc'.chgA hca⟩
           | false =>
             simp only [hdd, hr, if_true, Bool.false_eq_true, if_false, Option.some.injEq, Prod.mk.injEq] at hs
             obtain ⟨rfl, rfl, rfl, rfl, rfl⟩ := hs
-            obtain ⟨t, n1, n2, hb'⟩ := rstepA_removed_end last s top rfr ⟨d, retain⟩ done rest ins ht hb hk (.inr hr)
+            obtain ⟨t, n1, hb'⟩ := rcoreA_removed_end s top rfr ⟨d, retain⟩ done rest c ins ht hb hk (.inr hr)
             simp only [hdd, if_true] at t
-            exact ⟨t, n1, n2, mark ins, hb', (mark_chg ins).1, (mark_chg ins).2.1, (mark_chg ins).2.2.1, (mark_chg ins).2.2.2⟩
+            exact ⟨t, n1, mark c, hb', mark_chgA c⟩
         · simp only [hdd, if_false, Option.some.injEq, Prod.mk.injEq] at hs
           obtain ⟨rfl, rfl, rfl, rfl, rfl⟩ := hs
-          obtain ⟨t, n1, n2, hb'⟩ := rstepA_removed_end last s top rfr ⟨d, retain⟩ done rest ins ht hb hk (.inl hdd)
+          obtain ⟨t, n1, hb'⟩ := rcoreA_removed_end s top rfr ⟨d, retain⟩ done rest c ins ht hb hk (.inl hdd)
           simp only [hdd, if_false] at t
-          exact ⟨t, n1, n2, mark ins, hb', (mark_chg ins).1, (mark_chg ins).2.1, (mark_chg ins).2.2.1, (mark_chg ins).2.2.2⟩
+          exact ⟨t, n1, mark c, hb', mark_chgA c⟩
     | br _ | brIf _ | brTable _ _ | exitLike | other =>
       all_goals
         simp only [specStepA, hk, Option.some.injEq, Prod.mk.injEq] at hs
         obtain ⟨rfl, rfl, rfl, rfl, rfl⟩ := hs
-        obtain ⟨t, n1, n2, hb'⟩ := rstepA_removed_other last s fr dl done rest ins ht hb (by simp [hk])
-        exact ⟨t, n1, n2, mark ins, hb', (mark_chg ins).1, (mark_chg ins).2.1, (mark_chg ins).2.2.1, (mark_chg ins).2.2.2⟩
+        obtain ⟨t, n1, hb'⟩ := rcoreA_removed_other s fr dl done rest c ins ht hb (by simp [hk])
+        exact ⟨t, n1, mark c, hb', mark_chgA c⟩
   | none =>
     cases hba : ins.blockAlt with
     | none =>
       -- nothing is being removed and nothing starts: the plain stack machine
       have hpl := hp.plain hba
       have key : ∀ (fr1 : List Fr) (B1 A1 : List Tok), specStep fr ins = some (fr1, B1, A1) → fr' = fr1 → del' = none → B = B1 → alt = none → A = A1 →
-          (let s' := rstep last s done.length ins
-           TiedA s' fr' del' ∧ s'.nlocals = s.nlocals ∧ s'.added = s.added
-             ∧ ∃ c', s'.body = done ++ c' :: rest ∧ c'.before = B ∧ c'.after = A ∧ c'.alt = alt ∧ c'.tok = ins.tok) := by
+          (let s' := rcore s done.length ins
+           TiedA s' fr' del' ∧ Keep s s' ∧ ∃ c', s'.body = done ++ c' :: rest ∧ ChgA c c' B alt A) := by
         intro fr1 B1 A1 h1 e1 e2 e3 e4 e5
         subst e1 e2 e3 e4 e5
-        obtain ⟨t, n1, n2, c', hb', c1, c2, c3, c4⟩ := rstep_tied last s fr done rest ins hpl ht.tied hb fr' B A h1
-        exact ⟨t.tiedA, n1, n2, c', hb', c1, c2, c3, c4⟩
+        obtain ⟨t, n1, c', hb', hc'⟩ := rcore_tied s fr done rest c ins hpl ht.tied hb fr' B A h1
+        exact ⟨t.tiedA, n1, c', hb', hc'.chgA hca⟩
       cases hk : ins.kind with
       | block | loop =>
         all_goals
           simp only [specStepA, hk, hba, Option.some.injEq, Prod.mk.injEq, reduceCtorEq, if_false] at hs
           obtain ⟨h1, h2, h3, h4, h5⟩ := hs
-          exact key ({ exitB := ins.blockExit, afterA := ins.semAfter } :: fr) ins.before (ins.after ++ ins.blockEntry)
+          exact key ({ exitB := ins.blockExit, afterA := ins.semAfter } :: fr) [] ins.blockEntry
             (by simp [specStep, hk]) h1.symm h2.symm h3.symm h4.symm h5.symm
       | if_ =>
         simp only [specStepA, hk, hba, Option.some.injEq, Prod.mk.injEq, if_true] at hs
         obtain ⟨h1, h2, h3, h4, h5⟩ := hs
-        exact key ({ ifExit := ins.blockExit, afterA := ins.semAfter } :: fr) ins.before (ins.after ++ ins.blockEntry)
+        exact key ({ ifExit := ins.blockExit, afterA := ins.semAfter } :: fr) [] ins.blockEntry
           (by simp [specStep, hk]) h1.symm h2.symm h3.symm h4.symm h5.symm
       | else_ =>
         cases fr with
@@ -533,7 +540,7 @@ theorem rstepA_tied (last : Nat) (s : RState) (fr : List Fr) (del : Option Del) 
         all_goals
           simp only [specStepA, hk, hba, Option.some.injEq, Prod.mk.injEq] at hs
           obtain ⟨rfl, rfl, rfl, rfl, rfl⟩ := hs
-          exact rstepA_start_open last s fr done rest ins altT hp ht hb (by simp [hk]) hba
+          exact rcoreA_start_open s fr done rest c ins altT hca ht hb (by simp [hk]) hba
       | else_ =>
         cases fr with
         | nil => simp [specStepA, hk] at hs
@@ -543,27 +550,27 @@ theorem rstepA_tied (last : Nat) (s : RState) (fr : List Fr) (del : Option Del) 
           | cons below rfr =>
             simp only [specStepA, hk, hba, Option.some.injEq, Prod.mk.injEq] at hs
             obtain ⟨rfl, rfl, rfl, rfl, rfl⟩ := hs
-            have := rstepA_start_else last s top (below :: rfr) done rest ins altT hp ht hb hk hba
+            have := rcoreA_start_else s top (below :: rfr) done rest c ins altT hca ht hb hk hba
             simpa using this
       | end_ | br _ | brIf _ | brTable _ _ | exitLike | other =>
         all_goals simp [hk, Kind.isBlockStyle] at hbs
 
 theorem rloopA_tied (last : Nat) : ∀ (xs : List Instr) (s : RState) (fr : List Fr) (del : Option Del) (done : List Instr) (out : List Tok),
-    (∀ x ∈ xs, PlainA x) → TiedA s fr del → s.body = done ++ xs → specRunA last done.length fr del xs = some out →
+    (∀ x ∈ xs, PlainA x) → TiedA s fr del → s.entry = [] → s.exit = [] → s.body = done ++ xs → specRunA last done.length fr del xs = some out →
     let s' := rloop last s done.length xs
     ∃ done', s'.body = done ++ done' ∧ done'.length = xs.length ∧ emitFrom last done.length done' = out ∧ s'.added = s.added
       ∧ s'.nlocals = s.nlocals := by
   intro xs
   induction xs with
   | nil =>
-    intro s fr del done out _ _ hb hs
+    intro s fr del done out _ _ _ _ hb hs
     simp only [specRunA] at hs
     split at hs
     · simp only [Option.some.injEq] at hs; subst hs
       exact ⟨[], by simpa [rloop] using hb, rfl, rfl, rfl, rfl⟩
     · cases hs
   | cons x xs ih =>
-    intro s fr del done out hp ht hb hs
+    intro s fr del done out hp ht hen hex hb hs
     simp only [specRunA] at hs
     cases h1 : specStepA fr del x with
     | none => simp [h1] at hs
@@ -576,12 +583,15 @@ theorem rloopA_tied (last : Nat) : ∀ (xs : List Instr) (s : RState) (fr : List
       | none => simp [h2] at hs
       | some outr =>
         simp only [h2, Option.some.injEq] at hs
-        obtain ⟨t, n1, n2, c', hb', cb, ca, cal, ctok⟩ :=
-          rstepA_tied last s fr del done xs x (hp x (List.mem_cons_self ..)) ht hb fr' del' B alt A h1
+        have hpx := hp x (List.mem_cons_self ..)
+        have hstep : rstep last s done.length x = rcore s done.length x := by rw [rstep_eq, rpre_nil _ _ _ _ hen hex]
+        obtain ⟨t, ⟨n1, n2, n3, n4⟩, c', hb', cb, ca, cal, ctok⟩ :=
+          rcoreA_tied s fr del done xs x x hpx hpx.alt ht hb fr' del' B alt A h1
+        rw [← hstep] at t n1 n2 n3 n4 hb'
         have hb2 : (rstep last s done.length x).body = (done ++ [c']) ++ xs := by rw [hb']; simp
         have hlen : (done ++ [c']).length = done.length + 1 := by simp
         obtain ⟨d', e1, e0, e2, e3, e4⟩ := ih (rstep last s done.length x) fr' del' (done ++ [c']) outr
-          (fun y hy => hp y (List.mem_cons_of_mem _ hy)) t hb2 (by rw [hlen]; exact h2)
+          (fun y hy => hp y (List.mem_cons_of_mem _ hy)) t (n3.trans hen) (n4.trans hex) hb2 (by rw [hlen]; exact h2)
         refine ⟨c' :: d', ?_, by simp [e0], ?_, ?_, ?_⟩
         · simp only [rloop]; rw [← hlen, e1]; simp
         · simp only [emitFrom, cb, ca, cal, ctok]
@@ -636,7 +646,7 @@ theorem lower_eq_specA (f : Func) (hsp : f.hasSpecial = true) (hentry : f.entry 
     show (modifyAt f.body _ _).length = _
     unfold modifyAt; split <;> simp
   obtain ⟨d', e1, e0, e2, e3, _⟩ := rloopA_tied (f.body.length - 1) body0
-    { body := body0, entry := [], exit := [], nlocals := f.nlocals } [{}] none [] out hp0 (tied_init body0 f.nlocals).tiedA (by simp) hs0
+    { body := body0, entry := [], exit := [], nlocals := f.nlocals } [{}] none [] out hp0 (tied_init body0 [] [] f.nlocals).tiedA rfl rfl (by simp) hs0
   simp only [List.length_nil, List.nil_append] at e1 e2 e3
   have hd' : d'.length = f.body.length := by rw [e0, hlen0]
   unfold lower resolveSpecial
@@ -678,7 +688,7 @@ theorem specRunA_region (last : Nat) (dl : Del) (a b : Fr) (base' : List Fr) (ha
       have hne : (xs ++ rest).isEmpty = false := by cases xs <;> cases rest <;> simp_all
       have ihx := ih rest (idx + 1) m1 m' hdep hl' hrest
       have hstep : specStepA (List.replicate m emptyFr ++ a :: b :: base') (some dl) x
-          = some (List.replicate m1 emptyFr ++ a :: b :: base', some dl, x.before, some [], x.after) := by
+          = some (List.replicate m1 emptyFr ++ a :: b :: base', some dl, [], some [], []) := by
         cases hk : x.kind with
         | block | loop | if_ =>
           all_goals
@@ -735,7 +745,7 @@ theorem specRunA_alt_open (last idx : Nat) (b : Fr) (base' : List Fr) (X endI : 
           (fun o => X.before ++ alt ++ X.after ++ removedToks region ++ endI.before ++ endI.after ++ o) := by
   have hlt : ¬ idx ≥ last := by omega
   have hstepX : specStepA (b :: base') none X
-      = some (emptyFr :: b :: base', some ⟨base'.length + 1, false⟩, X.before, some alt, X.after) := by
+      = some (emptyFr :: b :: base', some ⟨base'.length + 1, false⟩, [], some alt, []) := by
     rcases hk with h | h | h <;> simp [specStepA, h, hx, emptyFr]
   have hne : (region ++ endI :: post).isEmpty = false := by cases region <;> simp
   simp only [specRunA, hstepX, List.isEmpty_cons, hne, Bool.false_and, Bool.false_eq_true, if_false, hlt, Option.getD_some]
@@ -746,7 +756,7 @@ theorem specRunA_alt_open (last idx : Nat) (b : Fr) (base' : List Fr) (X endI : 
   -- the `end` of the removed construct
   have hlt2 : ¬ idx + 1 + region.length ≥ last := by omega
   have hstepE : specStepA (emptyFr :: b :: base') (some ⟨base'.length + 1, false⟩) endI
-      = some (b :: base', none, endI.before, some [], endI.after) := by
+      = some (b :: base', none, [], some [], []) := by
     simp [specStepA, hend]
   have hpne : post.isEmpty = false := by cases post with | nil => exact absurd rfl hpost | cons _ _ => rfl
   simp only [specRunA, hstepE, List.isEmpty_cons, hpne, Bool.false_and, Bool.false_eq_true, if_false, hlt2, Option.getD_some]
@@ -773,7 +783,7 @@ theorem specRunA_alt_else (last idx : Nat) (top b : Fr) (base' : List Fr) (X end
   generalize hR : specRunA last (idx + region.length + 1) ({ top with ifExit := [] } :: b :: base') none (endI :: post) = R
   have hlt : ¬ idx ≥ last := by omega
   have hstepX : specStepA (top :: b :: base') none X
-      = some ({ top with ifExit := [] } :: b :: base', some ⟨base'.length + 1, true⟩, X.before ++ top.ifExit, some alt, X.after) := by
+      = some ({ top with ifExit := [] } :: b :: base', some ⟨base'.length + 1, true⟩, top.ifExit, some alt, []) := by
     simp [specStepA, hk, hx]
   have hne : (region ++ endI :: post).isEmpty = false := by cases region <;> simp
   simp only [specRunA, hstepX, List.isEmpty_cons, hne, Bool.false_and, Bool.false_eq_true, if_false, hlt, Option.getD_some]
